@@ -365,7 +365,7 @@ def case(ctx, rng, idx, state):
 if __name__ == "__main__":
     harness.main(
         PROP, "exploration", case, setup_fn=setup,
-        tiers=dict(quick=dict(cases=96, shards=8, time=400), thorough=dict(cases=1200, shards=16, time=1100)),
+        tiers=dict(quick=dict(cases=96, shards=8, time=900), thorough=dict(cases=1200, shards=16, time=3000)),
         rule="even cases: gapped 2D models (Haldane_ptb/tbm with random delta/hop1/hop2/phi in and outside the topological "
              "lobe; randomly rotated, perturbed and embedded 2-3-band lattice Chern insulators with winding 0,+-1,+-2 on random "
              "planar lattices), min gap >= 0.3 on a 96^2 scan, E_F mid-gap, grids 48^2 and 96^2; odd cases: random Hermitian models "
